@@ -10,17 +10,18 @@ import (
 
 // txnGen generates transactions against the last observed state.
 type txnGen struct {
-	g       *gen.G
-	sc      dyn.Schema
-	state   map[string]map[string]map[string]val.Val
-	counter int
-	pool    int
+	pBounded float64 // extra weight of the bounded-column transitions
+	g        *gen.G
+	sc       dyn.Schema
+	state    map[string]map[string]map[string]val.Val
+	counter  int
+	pool     int
 	// probabilities
 	pInvalid float64 // chance that a transaction contains a deliberately failing operation
 	pSelect  float64
 	pWait    float64
-	dangling float64 // chance that a reference points to a non-existent row
-	swaps    float64 // chance that a transaction swaps / hands over indexed values
+	dangling float64                // chance that a reference points to a non-existent row
+	swaps    float64                // chance that a transaction swaps / hands over indexed values
 	custom   func(tg *txnGen) []TOp // property-specific transaction generator
 	pCustom  float64
 }
@@ -85,6 +86,9 @@ func (tg *txnGen) value(c val.Col, pending map[string][]string) val.Val {
 		return out
 	default:
 		n := g.Intn(4)
+		if c.Max > 0 && n > c.Max {
+			n = c.Max
+		}
 		if n < c.Min {
 			n = c.Min
 		}
@@ -139,6 +143,11 @@ func (tg *txnGen) txn(maxOps int) []TOp {
 	}
 	if g.Chance(0.12) {
 		if ops := tg.twice(); len(ops) > 0 {
+			return ops
+		}
+	}
+	if g.Chance(0.1 + tg.pBounded) {
+		if ops := tg.bounded(); len(ops) > 0 {
 			return ops
 		}
 	}
@@ -275,6 +284,71 @@ func (tg *txnGen) twice() []TOp {
 			}
 		}
 		return ops
+	}
+	return nil
+}
+
+// bounded moves a column with a finite upper bound (a single-pair map, a small set) of an existing row between its
+// extreme states: the only pair replaced by a pair under another key, the pair removed, the set filled or emptied.
+func (tg *txnGen) bounded() []TOp {
+	g := tg.g
+	for _, ti := range g.R.Perm(len(tg.sc.Tables)) {
+		t := &tg.sc.Tables[ti]
+		us := tg.uuidsOf(t.Name)
+		var cols []val.Col
+		for _, c := range t.Cols {
+			if (c.K == 's' || c.K == 'm') && c.Max > 0 && c.RefTable == "" && c.VRefTable == "" && !c.Immutable {
+				cols = append(cols, c)
+			}
+		}
+		if len(us) == 0 || len(cols) == 0 {
+			continue
+		}
+		u := us[g.Intn(len(us))]
+		c := cols[g.Intn(len(cols))]
+		if g.Chance(0.6) {
+			// prefer a row whose bounded map holds a pair already
+			for _, cu := range us {
+				for _, cc := range cols {
+					if cc.K == 'm' && len(tg.state[t.Name][cu][cc.Name].Map) > 0 {
+						u, c = cu, cc
+					}
+				}
+			}
+		}
+		byU := []Cond{{Col: "_uuid", Fn: "==", Arg: val.VA(val.Uuid(u))}}
+		cur := tg.state[t.Name][u][c.Name]
+		if c.K == 'm' && len(cur.Map) == 0 {
+			one := val.Val{K: 'm', Map: [][2]val.Atom{{gen.AtomN(c.KT, g.Intn(tg.pool)), gen.AtomN(c.VT, g.Intn(tg.pool))}}}
+			return []TOp{{Kind: "update", Table: t.Name, Where: byU, Row: map[string]val.Val{c.Name: one}}}
+		}
+		var v val.Val
+		switch {
+		case c.K == 'm' && len(cur.Map) > 0 && g.Chance(0.6):
+			// another key (and value) in place of an existing pair
+			old := cur.Map[g.Intn(len(cur.Map))]
+			nk := gen.AtomN(c.KT, 1+g.Intn(tg.pool))
+			for nk.Key() == old[0].Key() {
+				nk = gen.AtomN(c.KT, 1+g.Intn(tg.pool+3))
+			}
+			v = val.Val{K: 'm'}
+			for _, p := range cur.Map {
+				if p[0].Key() != old[0].Key() && p[0].Key() != nk.Key() {
+					v.Map = append(v.Map, p)
+				}
+			}
+			v.Map = append(v.Map, [2]val.Atom{nk, gen.AtomN(c.VT, g.Intn(tg.pool))})
+		case (len(cur.Map) > 0 || len(cur.Set) > 0) && g.Chance(0.5):
+			v = val.Val{K: c.K} // emptied
+		default:
+			v = tg.value(c, nil)
+		}
+		if g.Chance(0.3) && c.K == 'm' && len(cur.Map) > 0 {
+			keys := val.Val{K: 's'}
+			keys.Set = append(keys.Set, cur.Map[0][0])
+			return []TOp{{Kind: "mutate", Table: t.Name, Where: byU, Muts: []Mut{{Col: c.Name, Mutator: "delete", Arg: keys}}}}
+		}
+		return []TOp{{Kind: "update", Table: t.Name, Where: byU, Row: map[string]val.Val{c.Name: v}}}
 	}
 	return nil
 }
